@@ -14,7 +14,8 @@ import AsyncsshModel.Model.StreamSrc
    P <limit> <ev>...       process layer: d<hex> D<hex> e s<n> S<n> c t x0 x1 w r0 r1 (redirect to a file object)
                            q0 q1 (redirect to another process's stdin: the same event for the model)
    D <ev>.. | <ev>..       drain: events before the call | events while it waits (p r l0 l1, s = a redirect source
-                           is registered for the stream, f = the source ended)
+                           is registered for the stream, f = the source ended, c0 / c1 = the peer's CLOSE arrives
+                           while connection_lost is still held back, the send buffer was empty / was not)
    R <ev>...               redirect sources of a server process: o0 o1 E0 E1 (redirect stdout / stderr, send_eof),
                            d<hex> D<hex> (the source delivers), z Z (the source ends)
 -/
@@ -135,6 +136,8 @@ def parseDEv (s : String) : Option DEv :=
   | "l1" => some (.lost true)
   | "s" => some .setReader
   | "f" => some .readerDone
+  | "c0" => some (.peerClose false)
+  | "c1" => some (.peerClose true)
   | _ => none
 
 open AsyncsshModel.StreamProc in
